@@ -74,11 +74,11 @@ class C13(Check):
             'coefficients; distinct by hash of the materialised input.')
     ASSUMPTIONS = ['fit domain: x, y, invvar (inputans, inputfunc) of one float dtype, non-negative weights, boolean ia, '
                    '>= ncoeff+1 distinct positively weighted abscissae (split basis: on both sides of 0), weighted design '
-                   'matrix condition <= 3e4 (float32: 100) so that normal equations are meaningful',
-                   'coefficient tolerance 2000*eps*cond^2*(|c|+|b|/smax) (calibrated max 12 in these units); gradient '
+                   'matrix condition <= 3e4 (float32: 25; some fit cases up to 3e5, gradient test only) so that normal equations are meaningful',
+                   'coefficient tolerance 2000*eps*cond^2*(|c|+|data|/smax) (float32: 200*eps32; calibrated max 12 / 1.1 in these units), compared only when < 1e-3 (2e-2) relative; gradient '
                    'tolerance 1e-9 (float32 5e-5) relative to smax*(smax*|c|+|b|); basis tolerance '
                    '100*eps*max(d^2, 2d*sum|monomial coefficients|) per order (float32: 100*eps32*d^2)',
-                   'H(x) of the split basis inside trace sets: positions with |xnorm| < 1e-12 (float32 1e-5) are undecided',
+                   'H(x) of the split basis inside trace sets: positions with |xnorm| < 1e-12*(1+max|x|/range) (float32 1e-5*...) are undecided; evaluation tolerances scale with the same amplification',
                    'grid size: xmax-xmin within 64*eps*max(1,|xmin|,|xmax|) of an integer but not exactly integral is undecided',
                    'trace-set domain: float positions, xmax > xmin, xjumphi > xjumplo, function names '
                    'legendre/chebyshev/poly/chebyshev_split (the aliases flegendre... are only func_fit names)']
